@@ -46,6 +46,10 @@ def states(tier, seed):
     # (a3) aerostruct, asymmetric
     for model, pf, ny, be, pmass in itertools.product(["tube", "wingbox"], ["swept", "twdi"], [5] if tier == "quick" else [5, 7], [0.0, 4.0], [False, True]):
         st.append(dict(part="as", model=model, pf=pf, ny=ny, beta=be, pmass=pmass, fam=fam))
+        if not pmass and pf == "swept":
+            # the same with a second (tail) surface in the flight point, listed after and before the wing
+            st.append(dict(part="as", model=model, pf=pf, ny=ny, beta=be, pmass=pmass, two="wt", fam=fam))
+            st.append(dict(part="as", model=model, pf=pf, ny=ny, beta=be, pmass=pmass, two="tw", fam=fam))
     # (b) mirror-symmetric full-span aerostructural models
     for model, pf, ny, relief in itertools.product(["tube", "wingbox"], ["swept", "twdi"] + (["camber"] if tier == "thorough" else []), [5] if tier == "quick" else [5, 7], [False, True]):
         st.append(dict(part="selfsym", model=model, pf=pf, ny=ny, relief=relief, fam=fam))
@@ -240,13 +244,18 @@ def part_struct(s):
     return dict(viol=viol, nontrivial=bool(np.abs(d1).max() > 1e-12), digest=digest_arrays(d1, p1["vonmises"]), transitions=2, validated=val)
 
 
-def _as_run(mesh, s, beta, pm):
+def _as_run(mesh, s, beta, pm, tail=None, tcp=(0.01, 0.012)):
     kw = dict(struct_weight_relief=True, with_viscous=True, exact_failure_constraint=True)
     if pm is not None:
         kw["n_point_masses"] = 1
     surf = builders.struct_surface("wing", mesh, False, s["model"], **kw)
+    surfs = [surf]
+    if tail is not None:
+        surfs.append(builders.struct_surface("tail", tail, False, "tube", struct_weight_relief=True, with_viscous=True, thickness_cp=np.array(tcp)))
+        if s["two"] == "tw":
+            surfs.reverse()
     fl = dict(Mach_number=0.5, W0=2.0e3, v=100.0, rho=0.9, alpha=4.0, beta=beta, speed_of_sound=200.0, R=2.0e6, load_factor=1.3)
-    p = builders.build_aerostruct([surf], fl, pm=pm)
+    p = builders.build_aerostruct(surfs, fl, pm=pm)
     builders.tighten(p)
     p.run_model()
     return p
@@ -260,11 +269,16 @@ def part_as(s):
         loc = np.array([[1.1, -2.2, -0.35]])
         pm = dict(point_masses=[600.0], engine_thrusts=[5.0e3], point_mass_locations=loc.tolist())
         pm2 = dict(point_masses=[600.0], engine_thrusts=[5.0e3], point_mass_locations=(loc * POLAR).tolist())
-    p1 = _as_run(m, s, s["beta"], pm)
-    p2 = _as_run(gen.mirror_mesh(m), s, -s["beta"], pm2)
+    t1 = t2 = None
+    if s.get("two"):
+        t1 = gen.make_mesh("twdi", 2, 3, "full", fam, asym=True, span=4.0, chord=0.9, offset=[6.0, 0.0, 0.8])
+        t2 = gen.mirror_mesh(t1)
+    p1 = _as_run(m, s, s["beta"], pm, t1)
+    # control points run along the span: the mirror image has them in reverse order
+    p2 = _as_run(gen.mirror_mesh(m), s, -s["beta"], pm2, t2, tcp=(0.012, 0.01))
     A = "AS_point_0."
     viol, val = [], 0
-    wh = dict(part="as", model=s["model"])
+    wh = dict(part="as", model=s["model"], nsurf=2 if s.get("two") else 1)
     F1 = p1[A + "coupled.aero_states.wing_sec_forces"]
     Fsc = np.abs(F1).max()
     checks = [
@@ -275,6 +289,10 @@ def part_as(s):
         ("CM", p2[A + "CM"], p1[A + "CM"] * AXIAL, max(np.abs(p1[A + "CM"]).max(), 1e-3)),
         ("cg", p2[A + "cg"], p1[A + "cg"] * POLAR, max(np.abs(p1[A + "cg"]).max(), 1e-3)),
     ]
+    if s.get("two"):
+        Ft = p1[A + "coupled.aero_states.tail_sec_forces"]
+        checks.append(("tail sec_forces", p2[A + "coupled.aero_states.tail_sec_forces"], flipF(Ft), np.abs(Ft).max()))
+        checks.append(("tail disp", p2[A + "coupled.tail.disp"], flipD(p1[A + "coupled.tail.disp"]), np.abs(p1[A + "coupled.tail.disp"]).max()))
     for q in ("CL", "CD", "fuelburn", "L_equals_W"):
         checks.append((q, p2[A + q], p1[A + q], max(abs(p1[A + q][0]), 1e-3)))
     for name, a, b, sc in checks:
